@@ -81,8 +81,10 @@ EXPLANATION = (
     "Anisotropic division: the refinement-window computation and its first read loop (verbatim prefix of RadialAnisotropicDivision, plain "
     "CBMC on IEEE doubles, nr_exp / anisotropic_factor listed, every refinement radius satisfying the function's own precondition): window "
     "inside the uniform division, double -> int conversions defined, log2 argument >= 1 (two defects found here were repaired: F16, F17). "
-    "NOT decided: the std::set based refinement after the window, checkParameters (std algorithms / lambdas), file round trip (iostream), "
-    "rejection paths.")
+    "checkParameters (std::all_of / find_if / adjacent_find / lower_bound with lambdas translated to index loops, lambda bodies and `equals` "
+    "verbatim; array sizes listed, coordinates symbolic reals): it throws exactly for arrays that are not >= 2 positive strictly increasing "
+    "radii and >= 3 non-negative strictly increasing angles from 0 to 2 pi in which every angle has its antipode. "
+    "NOT decided: the std::set based refinement after the window, file round trip (iostream).")
 
 
 def levels_replay_cb(job, key, label, rec):
